@@ -22,6 +22,12 @@ declare -A PROPS=(
  [c16-vyukov-tryget-wait-marker]="C16 C10"
  [c17-abandon-retired-stale-tail]="C17 C02 C01"
  [c18-he-last-era-on-throw]="C18 C15"
+ [r2-c01-geb-orphan-slot]="C01 C02"
+ [r2-c02-stampit-global-chunks]="C02 C17"
+ [r2-c04-ramalhete-idx-mask]="C04 C07"
+ [r2-c06-kirsch-kfifo]="C06 C07"
+ [r2-c12-grow-start-offset]="C12"
+ [r2-c13-leftright-read-decltype-auto]="C13"
 )
 if ! git -C /repo diff --quiet -- xenium; then echo "/repo has uncommitted changes under xenium/: refusing"; exit 2; fi
 for d in seeded/*/; do
